@@ -106,7 +106,11 @@ void Proto::onRecvJson(const Json &js)
                 return;
             }
             util::json::GetField(js, "id", id);
-            recv_request_cb_(id, method, js.contains("params") ? js["params"] : Json());
+            //! 注意：?: 两边必须都是左值，否则 params 会被整个深拷贝一份（nlohmann的拷贝是递归的，
+            //!       嵌套很深的 params 会耗尽调用栈）
+            const Json js_null;
+            const Json &js_params = js.contains("params") ? js["params"] : js_null;
+            recv_request_cb_(id, method, js_params);
 
         } else if (js.contains("result")) {
             //! 按结果回复进行处理
